@@ -30,7 +30,7 @@ SCOPE = ('every built-in reward and termination component against an oracle rest
          'real dynamics and on arbitrary next states; combinators with stub components returning fresh symbolic values; wiring of '
          'GridWorld.functional_step')
 BOUNDS = {
-    'quick': dict(local='shapes 1x1..2x2 (front-cell components also 1x3, 3x1); 33-object alphabet in the cells read (overlap, pickndrop: 8 objects); all poses/actions/held items; next state = real dynamics (move+turn chain, or the full chain for door/pick rewards), and arbitrary states over 8 objects',
+    'quick': dict(corridors='serpentine walls on odd rows or columns with symbolic gap ends: 5x5, 7x7, 5x9, 9x9 (thorough: up to 13x13), agent anywhere, 4 moves', local='shapes 1x1..2x2 (front-cell components also 1x3, 3x1); 33-object alphabet in the cells read (overlap, pickndrop: 8 objects); all poses/actions/held items; next state = real dynamics (move+turn chain, or the full chain for door/pick rewards), and arbitrary states over 8 objects',
                   scanning='getting_closer (manhattan, euclidean), proportional_to_distance: one Exit at every cell of a Floor grid 2x2..3x3; '
                            'getting_closer_shortest_path: every Floor/Wall background of 2x2, 2x3, 3x2 with the Exit at every cell; distance shaping also on triples whose next state has its own target/agent position/layout (1x3, 2x2) and on door-opening dynamics (1x3, 1x4, 2x2); reach_exit_memory: '
                            '2x2 and 1x4 over {Floor, Exit(RED), Exit(BLUE), Beacon(RED), Beacon(BLUE)} with all beacons of one colour',
